@@ -105,7 +105,7 @@ def check(w, tier, t0):
     samples = [{"real": e["real"], "ops": e["ops"][:8]} for e in (events[len(events) // 2], events[-1])]
     cov = {"states": states, "transitions": trans, "traces_validated_against_impl": len(events), "samples": samples,
            "evaluations": nfin, "distinct_nontrivial": len(nontrivial),
-           "rule": "one evaluation = one finisher executed from a handle of a history and compared with the same path replayed alone on a fresh gorm.Open; histories: %d from the TLC state graphs %s (every interleaving of derive/extend/session/finish) + %d random histories of 8-48 operations over Where/Or/Not/Select/Omit/Order/Limit/Offset/Group+Having/Joins/Distinct/Unscoped/Scopes/Clauses(Returning, OrderBy, Locking, OnConflict)/Table/Model/Attrs/Assign/Select of associations/Preload, every fourth a 'capacity pattern' (one appending method k times, a new handle, sibling chains appending once more before any is finished), handles re-created by Session (plain, NewDB, Context, SkipHooks, PrepareStmt and combinations)/WithContext/Debug, finishers in DryRun and for real on SQLite; non-trivial = at least two derivations/sessions" % (nhist, spaces, nrand),
+           "rule": "one evaluation = one finisher executed from a handle of a history and compared with the same path replayed alone on a fresh gorm.Open; histories: %d from the TLC state graphs %s (every interleaving of derive/extend/session/finish) + %d random histories of 8-48 operations over Where/Or/Not/Select/Omit/Order/Limit/Offset/Group+Having/Having/Joins/Distinct/Unscoped/Scopes/Clauses(Returning, OrderBy, Locking, OnConflict)/Table (plain, aliased, reset)/Model/Attrs/Assign/Select of associations/Preload, every second a 'capacity pattern' (one appending method k times, a new handle, sibling chains appending once more before any is finished), handles re-created by Session (plain, NewDB, Context, SkipHooks, PrepareStmt and combinations)/WithContext/Debug, finishers in DryRun and for real on SQLite; non-trivial = at least two derivations/sessions" % (nhist, spaces, nrand),
            "exhaustive": True, "histories_enumerated": nhist}
     lib.write_evidence(PROP, tier, "model_checking", cov, time.time() - t0, len(verdict.violations),
                        ["a chain value is continued or finished once (re-using a non-reusable chain value is the documented misuse)", "fixed NowFunc",
